@@ -85,6 +85,15 @@ Proof. intros H. unfold pw. destruct (Req_EM_T d 0); [lra|reflexivity]. Qed.
 Lemma pw_0 q : pw 0 q = 0.
 Proof. unfold pw. destruct (Req_EM_T 0 0); [reflexivity|contradiction]. Qed.
 
+(* d ^ 1 = d: the code skips the power when the exponent is 1 *)
+Lemma pw_one d : 0 <= d -> pw d 1 = d.
+Proof. intros H. unfold pw. destruct (Req_EM_T d 0) as [->|Hne]; [reflexivity|]. apply Rpower_1. lra. Qed.
+
+Lemma vdotR_scale_l c : forall a b, vdotR (vscaleR c a) b = c * vdotR a b.
+Proof.
+  unfold vscaleR. induction a as [|x a IH]; intros [|y b]; cbn; try ring. rewrite IH. ring.
+Qed.
+
 Lemma sum_abs_pow_nonneg p a : 0 <= sum_abs_pow p a.
 Proof.
   unfold sum_abs_pow. apply rsumR_nonneg. apply Forall_forall. intros y Hy. apply in_map_iff in Hy. destruct Hy as [x [<- _]].
